@@ -910,6 +910,13 @@ def warm_up_schema_models():
     if _warm:
         return
     _warm.append(1)
+    try:
+        _warm_up()
+    except Exception:
+        pass  # best effort; the determinism self-test reports what is left
+
+
+def _warm_up():
     import dataclasses
     from mashumaro.core.meta.helpers import iter_all_subclasses
     from mashumaro.jsonschema import models
